@@ -80,8 +80,20 @@ type E2EOpt struct {
 	Endpoint string `json:"endpoint,omitempty"` // "" = ocidir layout, "registry" = in-memory registry (regmodel)
 	RefForm  string `json:"ref_form,omitempty"` // "" = tag, "digest", "tag+digest"
 	Docker   bool   `json:"docker,omitempty"`   // the list is a Docker manifest list instead of an OCI index
-	Nested   bool   `json:"nested,omitempty"`   // the list sits below an outer index whose single entry is the requested platform
-	Sha512   bool   `json:"sha512,omitempty"`   // every second child manifest is addressed by sha512
+	// Levels wraps the list in outer indexes, outermost first (1 or 2 levels give
+	// a 2 or 3 level image). The expected result is the model applied level by
+	// level with the ORIGINALLY requested platform.
+	Levels []Level `json:"levels,omitempty"`
+	Sha512 bool    `json:"sha512,omitempty"` // every second child manifest is addressed by sha512
+}
+
+// Level is one outer index: leaf images (Siblings) and, at position Pos, the
+// entry that points to the next level down, labelled with platform Label
+// (Nil = the entry carries no platform).
+type Level struct {
+	Label    Plat   `json:"label"`
+	Siblings []Plat `json:"siblings,omitempty"`
+	Pos      int    `json:"pos,omitempty"`
 }
 
 const (
@@ -765,25 +777,33 @@ func checkE2E(c Case, h canon, hp platform.Platform, ents []entInfo, want int) *
 	}
 	cfg := []byte("{}")
 	cfgD := dig("sha256", cfg)
-	child := make([]digest.Digest, len(ents))
-	dl := []descriptor.Descriptor{}
-	for i, e := range ents {
+	leaf := func(name, alg string) (digest.Digest, int) {
 		mb, _ := json.Marshal(map[string]any{
 			"schemaVersion": 2, "mediaType": mediatype.OCI1Manifest,
 			"config":      map[string]any{"mediaType": mediatype.OCI1ImageConfig, "digest": cfgD.String(), "size": len(cfg)},
 			"layers":      []any{},
-			"annotations": map[string]string{"verif.entry": strconv.Itoa(i)},
+			"annotations": map[string]string{"verif.entry": name},
 		})
+		return put(alg, mediatype.OCI1Manifest, mb), len(mb)
+	}
+	leafDesc := func(name, alg string, p Plat) descriptor.Descriptor {
+		dg, sz := leaf(name, alg)
+		d := descriptor.Descriptor{MediaType: mediatype.OCI1Manifest, Digest: dg, Size: int64(sz)}
+		if !p.Nil {
+			pp := toPlatform(p)
+			d.Platform = &pp
+		}
+		return d
+	}
+	child := make([]digest.Digest, len(ents))
+	dl := []descriptor.Descriptor{}
+	for i, e := range ents {
 		alg := "sha256"
 		if opt.Sha512 && i%2 == 1 {
 			alg = "sha512"
 		}
-		child[i] = put(alg, mediatype.OCI1Manifest, mb)
-		d := descriptor.Descriptor{MediaType: mediatype.OCI1Manifest, Digest: child[i], Size: int64(len(mb))}
-		if !e.p.Nil {
-			p := toPlatform(e.p)
-			d.Platform = &p
-		}
+		d := leafDesc(strconv.Itoa(i), alg, e.p)
+		child[i] = d.Digest
 		dl = append(dl, d)
 	}
 	var listOrig any = v1.Index{Versioned: v1.IndexSchemaVersion, MediaType: mediatype.OCI1ManifestList, Manifests: dl}
@@ -794,12 +814,84 @@ func checkE2E(c Case, h canon, hp platform.Platform, ents []entInfo, want int) *
 	lb, err := json.Marshal(listOrig)
 	must(err)
 	topD, topMT, topLen := put("sha256", listMT, lb), listMT, len(lb)
-	if opt.Nested {
-		rp := toPlatform(c.Req)
-		ob, err := json.Marshal(v1.Index{Versioned: v1.IndexSchemaVersion, MediaType: mediatype.OCI1ManifestList,
-			Manifests: []descriptor.Descriptor{{MediaType: listMT, Digest: topD, Size: int64(len(lb)), Platform: &rp}}})
+	// outer levels, built from the innermost wrapper outwards
+	levelDL := make([][]descriptor.Descriptor, len(opt.Levels))
+	levelNested := make([]int, len(opt.Levels))
+	for k := len(opt.Levels) - 1; k >= 0; k-- {
+		lv := opt.Levels[k]
+		pos := lv.Pos
+		if pos < 0 || pos > len(lv.Siblings) {
+			pos = len(lv.Siblings)
+		}
+		nd := descriptor.Descriptor{MediaType: topMT, Digest: topD, Size: int64(topLen)}
+		if !lv.Label.Nil {
+			lp := toPlatform(lv.Label)
+			nd.Platform = &lp
+		}
+		var odl []descriptor.Descriptor
+		for j, sp := range lv.Siblings {
+			if j == pos {
+				odl = append(odl, nd)
+			}
+			odl = append(odl, leafDesc(fmt.Sprintf("L%d-%d", k, j), "sha256", sp))
+		}
+		if pos == len(lv.Siblings) {
+			odl = append(odl, nd)
+		}
+		levelDL[k], levelNested[k] = odl, pos
+		ob, err := json.Marshal(v1.Index{Versioned: v1.IndexSchemaVersion, MediaType: mediatype.OCI1ManifestList, Manifests: odl})
 		must(err)
 		topD, topMT, topLen = put("sha256", mediatype.OCI1ManifestList, ob), mediatype.OCI1ManifestList, len(ob)
+	}
+	// expected final manifest: the model applied level by level, every level
+	// searched for the originally requested platform
+	wantD := digest.Digest("") // "" = NotFound
+	if want >= 0 {
+		wantD = child[want]
+	}
+	comp := platform.NewCompare(hp)
+	descend := true
+	for k := 0; k < len(opt.Levels) && descend; k++ {
+		odl := levelDL[k]
+		lents := make([]entInfo, len(odl))
+		order := make([]int, len(odl))
+		for j := range odl {
+			order[j] = j
+			var p Plat
+			switch {
+			case j == levelNested[k]:
+				p = opt.Levels[k].Label
+			case j < levelNested[k]:
+				p = opt.Levels[k].Siblings[j]
+			default:
+				p = opt.Levels[k].Siblings[j-1]
+			}
+			e := entInfo{p: p, c: refNorm(p), elig: true}
+			e.rc, e.why = refCompatible(h, e.c)
+			e.exact = refExact(h, e.c)
+			lents[j] = e
+		}
+		req := hp
+		got, serr := descriptor.DescriptorListSearch(odl, descriptor.MatchOpt{Platform: &req})
+		chosen := -1
+		if serr == nil {
+			chosen = -2
+			for j := range odl {
+				if odl[j].Digest == got.Digest {
+					chosen = j
+					break
+				}
+			}
+		}
+		if v := judge(fmt.Sprintf("DescriptorListSearch(outer level %d)", k), c, h, comp, lents, order, chosen, serr); v != nil {
+			return v
+		}
+		switch {
+		case chosen < 0:
+			wantD, descend = "", false
+		case chosen != levelNested[k]:
+			wantD, descend = odl[chosen].Digest, false
+		}
 	}
 
 	var rc *regclient.RegClient
@@ -855,24 +947,43 @@ func checkE2E(c Case, h canon, hp platform.Platform, ents []entInfo, want int) *
 		} else {
 			m, err = rc.ManifestHead(ctx, r, regclient.WithManifestPlatform(hp))
 		}
-		chosen := -1
+		gotD := digest.Digest("")
 		if err == nil {
-			chosen = -2
-			got := m.GetDescriptor().Digest
-			for i := range child {
-				if child[i] == got {
-					chosen = i
-				}
-			}
+			gotD = m.GetDescriptor().Digest
 		} else if !errors.Is(err, errs.ErrNotFound) {
-			return evid.V("manifestget-error-other-than-notfound", "%s(WithManifestPlatform(%s)) on %+v: %v; entries %s", op, h.show(), opt, err, multisetKey(c.Req, c.Entries))
+			return evid.V("manifestget-error-other-than-notfound", "%s(WithManifestPlatform(%s)) on %s: %v; entries %s", op, h.show(), opt.show(), err, multisetKey(c.Req, c.Entries))
 		}
-		if chosen != want {
-			return evid.V("manifestget-differs-from-list-search", "%s(WithManifestPlatform(%s)) on %+v resolved to entry %d, DescriptorListSearch chose %d (-1 = NotFound, -2 = not a listed entry); entries in order: %s",
-				op, h.show(), opt, chosen, want, entriesInOrder(ents))
+		if gotD != wantD {
+			name := func(d digest.Digest) string {
+				if d == "" {
+					return "NotFound"
+				}
+				if st, ok := store[d]; ok {
+					var a struct {
+						Annotations map[string]string `json:"annotations"`
+					}
+					_ = json.Unmarshal(st.body, &a)
+					if e, ok := a.Annotations["verif.entry"]; ok {
+						return "image " + e
+					}
+					return "an index (" + st.mt + ")"
+				}
+				return "unlisted " + d.String()
+			}
+			sig := "manifestget-differs-from-list-search"
+			if len(opt.Levels) > 0 {
+				sig = "nested-index-not-resolved-for-requested-platform"
+			}
+			return evid.V(sig, "%s(WithManifestPlatform(%s)) on %s resolved to %s; searching every level for the requested platform gives %s (image N = inner entry N, image Lk-j = sibling j of outer level k); inner entries in order: %s",
+				op, h.show(), opt.show(), name(gotD), name(wantD), entriesInOrder(ents))
 		}
 	}
 	return nil
+}
+
+func (o E2EOpt) show() string {
+	b, _ := json.Marshal(o)
+	return string(b)
 }
 
 func entriesInOrder(ents []entInfo) string {
@@ -1047,9 +1158,48 @@ func TestVerifE2E(t *testing.T) {
 			Endpoint: rapid.SampledFrom([]string{"", "registry"}).Draw(rt, "endpoint"),
 			RefForm:  rapid.SampledFrom([]string{"", "", "digest", "tag+digest"}).Draw(rt, "ref_form"),
 			Docker:   rapid.IntRange(0, 2).Draw(rt, "docker") == 0,
-			Nested:   rapid.IntRange(0, 3).Draw(rt, "nested") == 0,
 			Sha512:   rapid.IntRange(0, 3).Draw(rt, "sha512") == 0,
 		}
+		h := refNorm(c.Req)
+		nl := []int{0, 0, 0, 1, 1, 1, 2, 2}[rapid.IntRange(0, 7).Draw(rt, "levels")]
+		for k := 0; k < nl; k++ {
+			lv := Level{}
+			rb := runnableFor(h)
+			lk := rapid.IntRange(0, 19).Draw(rt, "label_kind")
+			switch {
+			case lk < 3:
+				lv.Label = Plat{Nil: true}
+			case lk < 6:
+				lv.Label = c.Req
+			case lk < 16 && len(rb.yes) > 0:
+				lv.Label = rapid.SampledFrom(rb.yes).Draw(rt, "label_yes")
+			case lk < 18 && len(rb.open) > 0:
+				lv.Label = rapid.SampledFrom(rb.open).Draw(rt, "label_open")
+			default:
+				lv.Label = genEntry(rt, c.Req)
+			}
+			ns := rapid.IntRange(0, 2).Draw(rt, "n_siblings")
+			for j := 0; j < ns; j++ {
+				lv.Siblings = append(lv.Siblings, genEntry(rt, c.Req))
+			}
+			lv.Pos = rapid.IntRange(0, ns).Draw(rt, "pos")
+			o.Levels = append(o.Levels, lv)
+			lc := refNorm(lv.Label)
+			lrc, _ := refCompatible(h, lc)
+			switch {
+			case lv.Label.Nil:
+				ev.Class("e2e-outer-label:no-platform")
+			case lc == h:
+				ev.Class("e2e-outer-label:exactly-the-request")
+			case lrc == yes:
+				ev.Class("e2e-outer-label:runnable-not-identical")
+			case lrc == unspecified:
+				ev.Class("e2e-outer-label:docs-leave-open")
+			default:
+				ev.Class("e2e-outer-label:not-runnable")
+			}
+		}
+		ev.Class("e2e-levels:" + strconv.Itoa(nl+1))
 		c.E2EOpt = o
 		ep := "ocidir"
 		if o.Endpoint != "" {
@@ -1063,9 +1213,6 @@ func TestVerifE2E(t *testing.T) {
 		ev.Class("e2e-ref:" + rf)
 		if o.Docker {
 			ev.Class("e2e-docker-manifest-list")
-		}
-		if o.Nested {
-			ev.Class("e2e-nested-index")
 		}
 		if o.Sha512 {
 			ev.Class("e2e-sha512-children")
